@@ -148,7 +148,9 @@ def must_reject():
 
 def run(tier, seed):
     chk = Check("C03", tier, seed, "other")
-    from ..kernels import c12_lexer
+    from ..kernels import c12_lexer, c03_indicator
+    for k in c03_indicator.KERNELS:
+        chk.add_kernel(run_kernel(k, tier))
     for k in c12_lexer.KERNELS:
         chk.add_kernel(run_kernel(k, tier))
     ok, sites, failing = frame.rule_flow_api()
